@@ -231,7 +231,13 @@ class HandleRequest(Contract):
         a = E.cur_args
         d = a["self"]
         if isinstance(target, VOpaque) and z3.eq(target.e, st.get(d, "methodcall_error_handler").e):
-            return          # the error-handler hook, not an object member
+            # the error-handler hook, not an object member.  C07: it is handed the member that failed - a callable that went through the gate,
+            # never the request's method *name* (the default hook reads method.__qualname__; failing there would replace the user's exception)
+            approved = [e for e in st.events if e[0] == "approved"]
+            m = args[2] if len(args) > 2 else None
+            ok = z3.Or([m.e == e[3].e for e in approved]) if approved and isinstance(m, VOpaque) else z3.BoolVal(False)
+            E.oblige(st, "C07:the error hook receives the invoked member, not its name", ok, kind="pre")
+            return
         if kind in ("annotations()",):
             return
         msg = self.request(st)
